@@ -392,8 +392,32 @@ func GenLimits(prop string, seed uint64, thorough bool) *Scenario {
 	}
 	sizes := []int64{limit - 1, limit, limit + 1, limit + 2, 2 * limit, limit + 100000, limit + 1<<20}
 	x := ClientSpec{Name: "x1", Transport: "polling", EIO: 4, StartMs: g.pick(0, 100)}
-	mode := g.IntN(4)
-	if mode == 0 || mode == 1 {
+	mode := g.IntN(6)
+	if mode == 4 || mode == 5 {
+		// the limit must hold on a connection that joined the session as an upgrade candidate, too:
+		// polling handshake, candidate with the session's id, probe, upgrade, then frames around the limit
+		x.Raw = append(x.Raw, RawOp{Op: "http", Method: "GET", Query: "EIO=4&transport=polling"})
+		if mode == 4 {
+			x.Raw = append(x.Raw, RawOp{Op: "ws-open", Query: "EIO=4&transport=websocket", UseSid: true})
+			x.Raw = append(x.Raw, RawOp{Op: "ws-frame", Conn: 0, Frame: &RawFrame{Op: 1, Fin: true, Payload: []byte("2probe")}})
+			x.Raw = append(x.Raw, RawOp{Op: "ws-frame", Conn: 0, AtMs: g.pick(20, 150), Frame: &RawFrame{Op: 1, Fin: true, Payload: []byte("5")}})
+		} else {
+			x.Raw = append(x.Raw, RawOp{Op: "wt-open", UseSid: true})
+			x.Raw = append(x.Raw, RawOp{Op: "wt-raw", Conn: 0, Bytes: ref.AppendWTFrame(nil, ref.WTMsg{Data: []byte("2probe")})})
+			x.Raw = append(x.Raw, RawOp{Op: "wt-raw", Conn: 0, AtMs: g.pick(20, 150), Bytes: ref.AppendWTFrame(nil, ref.WTMsg{Data: []byte("5")})})
+		}
+		for i, n := 0, g.rng(1, 3); i < n; i++ {
+			sz := sizes[g.IntN(len(sizes))]
+			if sz < 1 {
+				sz = 1
+			}
+			if mode == 4 {
+				x.Raw = append(x.Raw, RawOp{Op: "ws-frame", Conn: 0, AtMs: g.pick(5, 30), Frame: &RawFrame{Op: 1, Fin: true, GenLen: int(sz)}})
+			} else {
+				x.Raw = append(x.Raw, RawOp{Op: "wt-raw", Conn: 0, AtMs: g.pick(5, 30), Bytes: ref.AppendWTFrame(nil, ref.WTMsg{Data: []byte("4" + strings.Repeat("w", int(sz)-1))})})
+			}
+		}
+	} else if mode == 0 || mode == 1 {
 		eio := g.pick(4, 4, 3)
 		x.EIO = eio
 		base := "EIO=" + strconv.Itoa(eio) + "&transport=polling"
@@ -504,6 +528,37 @@ func oracleC10(f *sessionFam, w *World, res *Result) []Violation {
 				d = "unknown-length"
 			}
 			l.add("oversized-body-refused-413", d+"/got-"+strconv.Itoa(r.Status), fmt.Sprintf("%s: data request #%d with a body of %d bytes (limit %d, %s) was answered %d", r.Client, r.ID, r.BodySize, limit, d, r.Status))
+		}
+	}
+	// an oversized WebSocket / WebTransport frame terminates that connection
+	for _, c := range f.sc.Clients {
+		if len(c.Raw) == 0 || !f.ended {
+			continue
+		}
+		over, run := false, int64(0)
+		for _, op := range c.Raw {
+			switch {
+			case op.Op == "ws-frame" && op.Frame != nil:
+				n := int64(op.Frame.GenLen)
+				if n == 0 {
+					n = int64(len(op.Frame.Payload))
+				}
+				run += n
+				if run > limit {
+					over = true
+				}
+				if op.Frame.Fin {
+					run = 0
+				}
+			case op.Op == "wt-raw" && len(op.Bytes) > 0:
+				if ms, _, _ := ref.DecodeWTStream(op.Bytes); len(ms) > 0 && int64(len(ms[0].Data)) > limit {
+					over = true
+				}
+			}
+		}
+		opened := w.evs(c.Name, "c-raw-ws-open", "c-raw-wt-open")
+		if over && len(opened) > 0 && (opened[0].N == 101 || opened[0].N == 200) && len(w.evs(c.Name, "c-raw-stream-end")) == 0 {
+			l.add("oversized-frame-ends-connection", "", fmt.Sprintf("%s sent a frame above the maximum payload (%d) but its connection was still open at the end", c.Name, limit))
 		}
 	}
 	// other sessions unaffected
